@@ -417,6 +417,9 @@ func (f *fn) stmt(s ast.Stmt, k kont, fl *flow) string {
 			inner.Init = nil
 			return f.stmt(s.Init, func() string { return f.stmt(&inner, k, fl) }, fl)
 		}
+		if split := f.splitCond(s); split != nil {
+			return f.stmt(split, k, fl)
+		}
 		var branches []branch
 		var els []ast.Stmt
 		cur := s
@@ -488,6 +491,55 @@ func (f *fn) retText(vs []val, n ast.Node) string {
 		return t
 	}
 	return "Res.ok " + paren(t)
+}
+
+// splitCond: `if A && B {S} else {T}` where evaluating B involves a call that can
+// panic or changes its receiver (so B cannot be evaluated unconditionally):
+// rewritten as `if A { if B {S} else {T} } else {T}`; `A || B` likewise as
+// `if A {S} else if B {S} else {T}`.
+func (f *fn) splitCond(s *ast.IfStmt) *ast.IfStmt {
+	cond := s.Cond
+	for {
+		if p, ok := cond.(*ast.ParenExpr); ok {
+			cond = p.X
+			continue
+		}
+		break
+	}
+	be, ok := cond.(*ast.BinaryExpr)
+	if !ok || (be.Op != token.LAND && be.Op != token.LOR) {
+		return nil
+	}
+	need := false
+	ast.Inspect(be.Y, func(n ast.Node) bool {
+		if c, ok := n.(*ast.CallExpr); ok && f.effectful(c) != nil {
+			need = true
+		}
+		return !need
+	})
+	if !need {
+		return nil
+	}
+	var elseBlock *ast.BlockStmt
+	if s.Else != nil {
+		if b, ok := s.Else.(*ast.BlockStmt); ok {
+			elseBlock = b
+		} else {
+			elseBlock = &ast.BlockStmt{Lbrace: s.Else.Pos(), List: []ast.Stmt{s.Else}, Rbrace: s.Else.End()}
+		}
+	}
+	inner := &ast.IfStmt{If: be.Y.Pos(), Cond: be.Y, Body: s.Body}
+	if elseBlock != nil {
+		inner.Else = elseBlock
+	}
+	if be.Op == token.LAND {
+		outer := &ast.IfStmt{If: s.If, Cond: be.X, Body: &ast.BlockStmt{Lbrace: s.Body.Lbrace, List: []ast.Stmt{inner}, Rbrace: s.Body.Rbrace}}
+		if elseBlock != nil {
+			outer.Else = elseBlock
+		}
+		return outer
+	}
+	return &ast.IfStmt{If: s.If, Cond: be.X, Body: s.Body, Else: inner}
 }
 
 // ---- calls at statement level ------------------------------------------------
